@@ -32,4 +32,18 @@ def handle (toks : List String) : String :=
     | none => "bad-op"
   | _ => "bad-op"
 
+/-- `c13q <marshalledhex|->` → `omit` | `keep` | `refuse` (`-` = Go nil parameters) -/
+def handleParams (toks : List String) : String :=
+  match toks with
+  | ["-"] => "omit"
+  | [h] =>
+    match bytesOfHex h with
+    | some b =>
+      match outParams b with
+      | .leaveOut => "omit"
+      | .keep _ => "keep"
+      | .refuse => "refuse"
+    | none => "bad-op"
+  | _ => "bad-op"
+
 end Jrpc.Oracle.C13
